@@ -36,7 +36,7 @@ var Quirks = []Quirk{
 	{ID: "C01-grpc-metadata-alias-type", Detect: hasGRPCMetadataAlias, SigAny: []string{"undefined: _", "cannot convert _"}},
 	{ID: "C01-grpc-response-metadata", Detect: hasGRPCResponseMetadata, SigAny: []string{"encode_decode: undefined: _", "encode_decode: declared and not used", "as *string value in assignment"}},
 	{ID: "C01-grpc-only-design-example-main", Detect: isGRPCOnly, SigAny: []string{"cmd: undefined: _"}},
-	{ID: "C01-gen-hangs-grpc-recursive-type", Detect: hasGRPCRecursiveType, SigAny: []string{"timeout"}},
+	{ID: "C01-gen-hangs-grpc-recursive-type", Detect: hasGRPCRecursiveType, SigAny: []string{"timeout", "crash"}},
 	{ID: "C01-response-cookie-nonstring", Detect: hasNonStringResponseCookie, SigAny: []string{"server/encode_decode"}},
 	{ID: "C01-param-named-like-generated-local", Detect: hasParamNamedLikeLocal, SigAny: []string{"redeclared", "no new variables", "undefined (type", "cannot use", "invalid operation", "undefined: _"}},
 	{ID: "C01-union-in-inline-object", Detect: hasUnionInInlineObject, SigAny: []string{"struct{…}"}},
@@ -764,9 +764,44 @@ func typeHasInlineObject(ut *m.UserType) bool {
 	return false
 }
 
+// typeHasInlineObjectDeep: the type, or a user / result type nested in it
+// (directly or as array element / map value), has an inline object attribute.
+func typeHasInlineObjectDeep(d *m.Design, ut *m.UserType, seen map[string]bool) bool {
+	if ut == nil || ut.Attr == nil || seen[ut.Name] {
+		return false
+	}
+	seen[ut.Name] = true
+	if typeHasInlineObject(ut) {
+		return true
+	}
+	var refs func(a *m.Attr) bool
+	refs = func(a *m.Attr) bool {
+		if a == nil || a.Type == nil {
+			return false
+		}
+		switch a.Type.Kind {
+		case m.User:
+			return typeHasInlineObjectDeep(d, d.TypeByName(a.Type.User), seen)
+		case m.Array:
+			return refs(a.Type.Elem)
+		case m.Map:
+			return refs(a.Type.Val)
+		}
+		return false
+	}
+	if ut.Attr.Type.Kind == m.Object {
+		for _, f := range ut.Attr.Type.Fields {
+			if refs(f.Attr) {
+				return true
+			}
+		}
+	}
+	return false
+}
+
 func hasCollectionOfInlineObject(d *m.Design) bool {
 	for _, t := range d.Types {
-		if t.CollectionOf != "" && typeHasInlineObject(d.TypeByName(t.CollectionOf)) {
+		if t.CollectionOf != "" && typeHasInlineObjectDeep(d, d.TypeByName(t.CollectionOf), map[string]bool{}) {
 			return true
 		}
 	}
